@@ -88,3 +88,7 @@ REPLAY["C08"] = replay_c08
 GENERIC_CONFIRM["C17"] = checks_serial.confirm_fn
 CHECKS["C17"] = checks_serial.run_check
 REPLAY["C17"] = replay_generic
+
+GENERIC_CONFIRM["C13"] = checks_pure.iso_confirm
+CHECKS["C13"] = checks_pure.run_c13
+REPLAY["C13"] = replay_generic
